@@ -92,7 +92,7 @@ def pow2(eng, s):
     if key not in eng.pow2_seen:
         for s0 in eng.pow2_terms[-12:]:
             t0 = pow2_f(s0)
-            for cst in (1, 7, 8):
+            for cst in (1, 4, 7, 8):
                 eng.assume(z3.Implies(z3.And(s0 >= 0, s == s0 + cst), t == (2 ** cst) * t0))
                 eng.assume(z3.Implies(z3.And(s >= 0, s0 == s + cst), t0 == (2 ** cst) * t))
             eng.assume(z3.Implies(z3.And(0 <= s, s <= s0), t <= t0))
@@ -597,7 +597,7 @@ def store_subscript(eng, base, idx, v, node):
             eng.opaque_call("<setitem with untracked index/value>", [], node, havoc_args=False)
             nb = eng.havoc_like(b, "after_setitem")
             if isinstance(nb, VSeq):
-                nb = VSeq(nb.at, b.n, nb.kind, nb.arr, nb.esort)     # length is unchanged
+                nb = VSeq(nb.at, b.n, nb.kind, nb.arr, nb.esort, nb.off)     # length is unchanged
             eng.heap[base.addr] = nb
             return
         c = const_of(i)
@@ -847,6 +847,13 @@ def seq_extend(eng, ref, v, node):
 
 def opaque_iter_item(eng, it, node):
     itd = eng.deref(it)
+    if getattr(itd, "item_type", None):
+        item = eng.make(itd.item_type, "item")
+        env = dict(itd.item_env)
+        env["item"] = item
+        for ex in itd.item_ensures:
+            eng.assume(eng.eval_spec_bool(ex, itd.item_frame, extra=env))
+        return item
     if isinstance(itd, VChunks):
         arr = fresh_arr("chunk")
         n = fresh_int("chunk_len")
@@ -1082,6 +1089,8 @@ def m_bytes(eng, args, kwargs, node, frame):
     if not args:
         return seq_const(b"")
     v = eng.deref(args[0])
+    if isinstance(v, VTuple) and all(as_int(eng, x) is not None for x in v.items):
+        v = seq_of_terms([as_int(eng, x) for x in v.items], "tuple")
     if isinstance(v, VSeq):
         if v.kind in ("list", "tuple") and not eng.spec:
             # bytes([..]) raises ValueError for elements outside 0..255
@@ -1095,7 +1104,7 @@ def m_bytes(eng, args, kwargs, node, frame):
                 ok = z3.ForAll([k], z3.Implies(z3.And(0 <= k, k < v.n), z3.And(0 <= v.at(k), v.at(k) <= 255)))
             if not eng.branch(ok):
                 eng.raise_exc("ValueError", node)
-        r = VSeq(v.at, v.n, "bytes", v.arr, v.esort)
+        r = VSeq(v.at, v.n, "bytes", v.arr, v.esort, v.off)
         r.origin = v.origin
         return r
     if isinstance(v, VInt):
@@ -1115,7 +1124,7 @@ def m_bytearray(eng, args, kwargs, node, frame):
     r = m_bytes(eng, args, kwargs, node, frame)
     r = eng.deref(r)
     if isinstance(r, VSeq):
-        return eng.alloc(VSeq(r.at, r.n, "bytearray", r.arr, r.esort))
+        return eng.alloc(VSeq(r.at, r.n, "bytearray", r.arr, r.esort, r.off))
     return r
 
 
@@ -1123,7 +1132,7 @@ def m_bytearray(eng, args, kwargs, node, frame):
 def m_memoryview(eng, args, kwargs, node, frame):
     v = eng.deref(args[0])
     if isinstance(v, VSeq):
-        r = VSeq(v.at, v.n, "memoryview", v.arr, v.esort)
+        r = VSeq(v.at, v.n, "memoryview", v.arr, v.esort, v.off)
         r.origin = v.origin
         return r
     if isinstance(v, VOpaque):
@@ -1137,7 +1146,7 @@ def m_list(eng, args, kwargs, node, frame):
         return make_list(eng, [], node)
     v = eng.deref(args[0])
     if isinstance(v, VSeq):
-        r = VSeq(v.at, v.n, "list", v.arr, v.esort)
+        r = VSeq(v.at, v.n, "list", v.arr, v.esort, v.off)
         if v.kind in ("bytes", "bytearray", "memoryview") or getattr(v, "bytelike", False):
             r.bytelike = True
         return eng.alloc(r)
@@ -1162,7 +1171,7 @@ def m_tuple(eng, args, kwargs, node, frame):
         cl = v.const_len()
         if cl is not None and cl <= 32:
             return VTuple([eng.wrap_elem(v, v.at(z3.IntVal(i))) for i in range(cl)])
-        return VSeq(v.at, v.n, "tuple", v.arr, v.esort)
+        return VSeq(v.at, v.n, "tuple", v.arr, v.esort, v.off)
     if isinstance(v, VOpaque):
         return eng.opaque_call("tuple()", [], node, havoc_args=False)
     raise OutOfSubset(node, f"tuple({v!r})")
@@ -1329,6 +1338,12 @@ def m_map(eng, args, kwargs, node, frame):
 @model("enumerate", "zip", "reversed", "iter", "sorted", "filter")
 def m_iterators(eng, args, kwargs, node, frame):
     name = node.func.id if isinstance(node.func, ast.Name) else "iter"
+    if name == "enumerate" and len(args) == 1 and not kwargs:
+        v = eng.deref(args[0])
+        if isinstance(v, VSeq):
+            r = VOpaque(tag="enumerate")
+            r.enum_of = v
+            return r
     sp = eng.vf.specs.get(f"py_{name}")
     if sp is not None:
         return sp.sym(eng, *args, node=node, **kwargs)
@@ -1571,6 +1586,24 @@ def sm_append(eng, recv, r, args, kwargs, node):
     return list_append(eng, recv, args[0], node)
 
 
+@seqm("insert")
+def sm_insert(eng, recv, r, args, kwargs, node):
+    from .values import seq_prepend
+    if not isinstance(recv, VRef):
+        raise OutOfSubset(node, "insert on immutable")
+    pos = const_of(as_int(eng, args[0])) if as_int(eng, args[0]) is not None else None
+    x = as_int(eng, args[1]) if r.esort == "int" else to_val(eng, args[1])
+    if pos != 0 or x is None:
+        raise OutOfSubset(node, "list.insert supported at position 0 only")
+    if r.kind == "bytearray" and not eng.branch(z3.And(0 <= x, x <= 255)):
+        eng.raise_exc("ValueError", node)
+    nb = seq_prepend(r, x)
+    if getattr(r, "bytelike", False):
+        nb.bytelike = True
+    eng.heap[recv.addr] = nb
+    return NONE
+
+
 @seqm("extend")
 def sm_extend(eng, recv, r, args, kwargs, node):
     if not isinstance(recv, VRef):
@@ -1640,7 +1673,7 @@ def sm_join(eng, recv, r, args, kwargs, node):
     v = eng.deref(args[0])
     if r.const_len() == 0:
         if isinstance(v, VChunks):
-            r2 = VSeq(v.join.at, v.join.n, "bytes", v.join.arr)
+            r2 = VSeq(v.join.at, v.join.n, "bytes", v.join.arr, "int", v.join.off)
             r2.origin = v.join.origin
             return r2
         if isinstance(v, VSeq) and getattr(v, "untyped_empty", False):
@@ -1686,7 +1719,7 @@ def sm_hex(eng, recv, r, args, kwargs, node):
 
 @seqm("tobytes")
 def sm_tobytes(eng, recv, r, args, kwargs, node):
-    return VSeq(r.at, r.n, "bytes", r.arr, r.esort)
+    return VSeq(r.at, r.n, "bytes", r.arr, r.esort, r.off)
 
 
 @seqm("release")
@@ -1696,7 +1729,7 @@ def sm_release(eng, recv, r, args, kwargs, node):
 
 @seqm("copy")
 def sm_copy(eng, recv, r, args, kwargs, node):
-    return eng.alloc(VSeq(r.at, r.n, r.kind, r.arr, r.esort))
+    return eng.alloc(VSeq(r.at, r.n, r.kind, r.arr, r.esort, r.off))
 
 
 @seqm("pop")
@@ -1715,7 +1748,7 @@ def sm_pop(eng, recv, r, args, kwargs, node):
     if not eng.branch(r.n > 0):
         eng.raise_exc("IndexError", node)
     x = r.at(r.n - 1)
-    eng.heap[recv.addr] = VSeq(r.at, r.n - 1, r.kind, r.arr, r.esort)
+    eng.heap[recv.addr] = VSeq(r.at, r.n - 1, r.kind, r.arr, r.esort, r.off)
     return eng.wrap_elem(r, x)
 
 
@@ -1841,7 +1874,7 @@ def m_bytesio(eng, args, kwargs, node, frame):
     init = eng.deref(args[0]) if args else seq_const(b"")
     if not isinstance(init, VSeq):
         return eng.opaque_call("BytesIO(opaque)", [], node, havoc_args=False)
-    content = VSeq(init.at, init.n, "bytes", init.arr)
+    content = VSeq(init.at, init.n, "bytes", init.arr, "int", init.off)
     content.origin = init.origin
     return eng.alloc(VObj("BytesIO", {"content": content, "pos": VInt(0)}))
 
@@ -1934,7 +1967,7 @@ def bio_truncate(eng, recv, args, kwargs, node):
     o, c, p = _bio(eng, recv)
     sz = as_int(eng, args[0]) if args else p
     nl = z3.If(sz < c.n, sz, c.n)
-    _bio_set(eng, recv, content=VSeq(c.at, nl, "bytes"))
+    _bio_set(eng, recv, content=VSeq(c.at, nl, "bytes", c.arr, "int", c.off))
     return VInt(sz)
 
 
